@@ -20,6 +20,7 @@ type c14Step struct {
 	Ext  string   `json:"ext,omitempty"` // with Out: extension of the -o file (gts derives the output format from .fasta/.gb/.genbank)
 	Sin  int      `json:"sin,omitempty"` // standard input of the cached run: 0 a pipe, 1 a regular file, 2 a regular file positioned behind a line the caller consumed
 	Old  bool     `json:"old,omitempty"` // with Out: the -o file exists before the cached run (and is longer than the output)
+	Inp  bool     `json:"inp,omitempty"` // with Out and Sin == 1: -o names the file standard input is redirected from
 	Aux  bool     `json:"aux,omitempty"` // another invocation sharing the cache directory (gts cache list / purge): run, not compared
 }
 
@@ -27,8 +28,10 @@ type c14Case struct {
 	Steps []c14Step `json:"steps"`
 }
 
+func (s c14Step) inPlace() bool { return s.Inp && s.Out && s.Sin == 1 }
+
 func (s c14Step) key() string {
-	return fmt.Sprintf("%q|%s|%v|%s|%v|%v", s.Args, s.In, s.Out, s.Ext, s.Alt, s.Out && s.Old)
+	return fmt.Sprintf("%q|%s|%v|%s|%v|%v|%v", s.Args, s.In, s.Out, s.Ext, s.Alt, s.Out && s.Old, s.inPlace())
 }
 
 var (
@@ -49,6 +52,9 @@ func uncached(s c14Step) cliResult {
 	args := expandArgs(s.Args)
 	args = append([]string{args[0], "--no-cache"}, args[1:]...)
 	setSecondary(s.Args, s.Alt)
+	if s.inPlace() {
+		env = env.withStdin(1).withInPlace(true)
+	}
 	r = env.withStale(s.Old).run(args, pool[s.In], s.Out, s.Ext)
 	baselineMu.Lock()
 	baseline[s.key()] = r
@@ -70,12 +76,12 @@ func c14Check(c c14Case) *Violation {
 		}
 		want := uncached(s)
 		setSecondary(s.Args, s.Alt)
-		got := env.withStdin(s.Sin).withStale(s.Old).run(expandArgs(s.Args), pool[s.In], s.Out, s.Ext)
+		got := env.withStdin(s.Sin).withStale(s.Old).withInPlace(s.inPlace()).run(expandArgs(s.Args), pool[s.In], s.Out, s.Ext)
 		hist := []string{}
 		for _, p := range c.Steps[:i+1] {
 			hist = append(hist, fmt.Sprintf("[gts %q < %s out=%v%s alt=%v stdin=%s]", p.Args, p.In, p.Out, p.Ext, p.Alt, []string{"pipe", "file", "file-at-offset"}[mod(p.Sin, 3)]))
 		}
-		if s.Out && s.Old && want.Exit == 0 {
+		if s.Out && s.Old && want.Exit == 0 && !s.inPlace() {
 			// what the file held before is no part of the output of a run that succeeds
 			fresh := s
 			fresh.Old = false
@@ -113,6 +119,9 @@ func c14Classify(c c14Case) (bool, []string) {
 		}
 		if s.Alt {
 			labels = append(labels, "secondary-file-rewritten")
+		}
+		if s.inPlace() {
+			labels = append(labels, "-o-is-stdin-file")
 		}
 		if s.Sin > 0 {
 			labels = append(labels, "stdin:"+[]string{"pipe", "file", "file-at-offset"}[mod(s.Sin, 3)])
@@ -209,6 +218,7 @@ func c14Gen(t *rapid.T) c14Case {
 		st := c14Step{Args: append([]string{cmd}, v...), In: in, Out: rapid.IntRange(0, 3).Draw(t, "out") == 0}
 		st.Alt = rapid.IntRange(0, 3).Draw(t, "alt") == 0
 		st.Sin = rapid.SampledFrom([]int{0, 0, 0, 1, 2}).Draw(t, "sin")
+		st.Inp = rapid.IntRange(0, 2).Draw(t, "inp") == 0
 		if st.Out {
 			st.Old = rapid.Bool().Draw(t, "old")
 			st.Ext = rapid.SampledFrom([]string{"", "", ".fasta", ".gb", ".genbank", ".txt"}).Draw(t, "ext")
@@ -243,6 +253,9 @@ func TestC14(t *testing.T) {
 		}
 		for _, a := range vars {
 			sa := func(in string, out bool) c14Step { return c14Step{Args: append([]string{cmd}, a...), In: in, Out: out} }
+			sinp := func(in string) c14Step {
+				return c14Step{Args: append([]string{cmd}, a...), In: in, Out: true, Sin: 1, Inp: true, Ext: ".gb"}
+			}
 			sold := func(in string) c14Step {
 				return c14Step{Args: append([]string{cmd}, a...), In: in, Out: true, Old: true}
 			}
@@ -267,6 +280,7 @@ func TestC14(t *testing.T) {
 				{Steps: []c14Step{se("smallfa", ".gb"), sa("smallfa", false), se("smallfa", ".fasta"), se("smallfa", ".genbank")}},
 				{Steps: []c14Step{ssin("small", 2), sa("small", false), ssin("two", 1), ssin("small", 1)}},
 				{Steps: []c14Step{sold("small"), sold("small"), sa("small", false), sold("small")}},
+				{Steps: []c14Step{sinp("small"), sinp("two"), sa("two", false), sinp("two")}},
 				{Steps: []c14Step{sa("two", false), ssin("two", 2), ssin("big", 2), sa("big", false)}},
 			} {
 				if !e.try(c) {
